@@ -239,27 +239,24 @@ D5 = Tuple[int, int, int, int, int]
 FIN52 = [[2, 3, 4], [0, 2, 4]]
 
 
-def c02_minimal_52(b: D5, fin: int) -> bool:
+def c02_minimal_52(b: D5, fin: int, arow: int) -> bool:
     """
-    pre: pinned(fin=fin, b0=b[0], b1=b[1])
-    pre: enc.in_range(b, 6) & ((0 <= fin) & (fin < 2))
+    pre: pinned(arow=arow, fin=fin, b0=b[0], b1=b[1])
+    pre: enc.in_range(b, 6) & ((0 <= fin) & (fin < 2)) & ((0 <= arow) & (arow < 4))
     post: _
     """
-    # 5 states over {a,b}: an a-chain 0->1->2->3->4 and arbitrary b-transitions (0 = none); sizes at which the
-    # Hopcroft processing list holds a class for both symbols at once (not reachable with <= 4 states)
-    edges = [(q, 1, q + 1) for q in range(4)]
-    for q in range(5):
-        v = enc.pick(b[q], 6)
-        if v > 0:
-            edges.append((q, 2, v - 1))
+    # 5 states over {a,b}: the a-row is a chain or a permutation (enc.DFA5_AROWS), the b-transitions are arbitrary
+    # (0 = none); sizes at which the Hopcroft processing list holds a class for both symbols at once (not
+    # reachable with <= 4 states)
+    edges = enc.dfa5_edges(arow, b)
     finals = FIN52[enc.pick(fin, 2)]
-    return _minimal("c02_minimal_52", (b, fin), 5, 2, edges, [0], finals)
+    return _minimal("c02_minimal_52", (b, fin, arow), 5, 2, edges, [0], finals)
 
 
 def _sh_min52(tier):
     if tier == "quick":
-        return product_pins(fin=[0, 1], b0=[0, 3, 5], b1=[0, 3])
-    return product_pins(fin=[0, 1], b0=list(range(6)), b1=list(range(6)))
+        return product_pins(arow=[0, 1], fin=[0, 1], b0=[0, 3, 5], b1=[0, 3])
+    return product_pins(arow=[0, 1, 2, 3], fin=[0, 1], b0=list(range(6)), b1=[0, 2, 3, 5])
 
 
 def _sh_equiv_dfa(tier):
@@ -316,10 +313,11 @@ CONDS = [
          {"quick": "all partial DFAs with 2 states over {a,b} (972)", "thorough": "same"},
          FUNCS, RULE),
     Cond("C02", c02_minimal_52, _sh_min52,
-         {"quick": "5-state partial DFAs over {a,b}: a-chain 0->1->2->3->4 plus arbitrary b-transitions with the first "
-                   "two pinned to 6 combinations, final sets {2,3,4} / {0,2,4} (a slice of a size exhaustive search "
-                   "cannot reach: the Hopcroft work-list only holds one class for two symbols from 5 states on)",
-          "thorough": "all 6^5 b-transition tables x the two final sets"},
+         {"quick": "5-state partial DFAs over {a,b}: a-row = chain 0->1->2->3->4 or the permutation 0->0, 1->2->3->4->1, "
+                   "plus arbitrary b-transitions with the first two pinned to 6 combinations, final sets {2,3,4} / "
+                   "{0,2,4} (a slice of a size exhaustive search cannot reach: the Hopcroft work-list only holds one "
+                   "class for two symbols from 5 states on)",
+          "thorough": "4 a-rows (chain, two permutations, 5-cycle) x b-tables with b1 in 4 values x the two final sets"},
          FUNCS, RULE),
     Cond("C02", c02_minimal_32, _sh_min32,
          {"thorough": "partial DFAs with 3 states over {a,b}, start 0, non-empty final mask (4^6 x 7)"},
